@@ -15,11 +15,15 @@ import (
 	"github.com/wollac/iota-crypto-demo/pkg/ed25519"
 	"pgregory.net/rapid"
 
+	"verifharness/fc"
 	"verifharness/h"
 	"verifharness/ref/ed"
 )
 
-func TestMain(m *testing.M) { h.Main(m) }
+func TestMain(m *testing.M) {
+	h.FirstCallsChild(fc.Ed25519()) // never returns in a first-call child process
+	h.Main(m)
+}
 
 var reusedPriv [64]byte
 var primerKey = stded.NewKeyFromSeed(bytes.Repeat([]byte{9}, 32))
@@ -562,3 +566,6 @@ func TestEveryLength(t *testing.T) {
 func FuzzGenSign(f *testing.F) {
 	h.FuzzSub(f, h.Sub[signCase]{Prop: "C07", Name: "sign-vs-stdlib", Gen: genSign, Check: checkSign})
 }
+
+// which public entry point is called first in a process (and by how many goroutines at once)
+func TestFirstCalls(t *testing.T) { h.FirstCallsSub(t, "C07", fc.Ed25519(), 6) }
